@@ -16,7 +16,7 @@ package message
 
 //@ func (*ReadWriter).Read returns (msg, err)
 //@   requires rw != nil && m != nil
-//@   requires forall j int :: 0 <= j && j < len(rw.fields) ==> rw.fields[j] != nil
+//@   requires specCodecInv(rw)
 //@   ensures  [v1-exact-length] !isV2 && len(m.Payload) != int(rw.sizeNormal) ==> err != nil && msg == nil
 //@   ensures  [result-xor-error] (msg != nil) == (err == nil)
 //@   ensures  [caller-buffer-untouched] unchangedBytes(m.Payload)
